@@ -189,8 +189,7 @@ namespace ratio
                 if (max < ub)
                     max = ub;
             }
-            assert(min.get_infinitesimal() == rational::ZERO);
-            assert(max.get_infinitesimal() == rational::ZERO);
+            // (a strict bound of a value only loses its strictness in the bounds imposed below)
             if (min == max) // we have a constant..
                 return new_real(min.get_rational());
             else
@@ -222,8 +221,7 @@ namespace ratio
                 if (max < ub)
                     max = ub;
             }
-            assert(min.get_infinitesimal() == rational::ZERO);
-            assert(max.get_infinitesimal() == rational::ZERO);
+            // (a strict bound of a value only loses its strictness in the bounds imposed below)
             if (min == max) // we have a constant..
                 return new_tp(min.get_rational());
             else
